@@ -345,6 +345,25 @@ pub fn b4_nested(depth: usize, kind: u8) -> Vec<u8> {
     out
 }
 
+/// B8: a header map wrapped in `depth` byte strings instead of one (form 0), each level additionally
+/// under tag 24 (form 1), or each level as the only element of an array (form 2).  Whatever re-parses
+/// the content of a byte string must not do so once per level without a bound.
+pub fn b8_wrapped(depth: usize, form: u8) -> Vec<u8> {
+    let mut cur: Vec<u8> = vec![0xa1, 0x04, 0x41, 0x01];
+    for _ in 0..depth {
+        let mut next = Vec::with_capacity(cur.len() + 6);
+        match form {
+            1 => next.extend_from_slice(&[0xd8, 0x18]),
+            2 => next.push(0x81),
+            _ => {}
+        }
+        rcbor::put_head(&mut next, 2, cur.len() as u64, &mut rcbor::Style::canonical());
+        next.extend_from_slice(&cur);
+        cur = next;
+    }
+    cur
+}
+
 /// place a header (map bytes) into a carrier
 pub fn carry_header(root: u8, header: &[u8]) -> (Ty, Vec<u8>) {
     let p = bstr_wrap(header);
